@@ -40,8 +40,9 @@ def run_demo(wt, sd, tag):
     else:
         demo = os.path.join(sd, "demo.cc")
         libs = "$(find _build/sdk -name 'libopentelemetry_*.a' | tr '\\n' ' ')"
+        exe = "/tmp/seeded_demo_%s_%s" % (os.path.basename(wt.rstrip("/")), tag)
         rc, out = sh("cd %s && g++ -std=gnu++17 -O1 -g -DOPENTELEMETRY_ABI_VERSION_NO=1 -I api/include -I sdk/include -I sdk "
-                     "%s -o /tmp/seeded_demo_%s %s %s -lpthread && /tmp/seeded_demo_%s" % (wt, demo, tag, libs, libs, tag),
+                     "%s -o %s %s %s -lpthread && %s" % (wt, demo, exe, libs, libs, exe),
                      timeout=1800)
     return rc, out[-1500:]
 
